@@ -1058,6 +1058,14 @@ func (e *vOvpn) keyCase(kb []byte, bidi, inverse bool, which, size int) {
 
 // ---------------------------------------------------------------- C18: codecs
 
+func sortInts(a []int) {
+	for i := 1; i < len(a); i++ {
+		for j := i; j > 0 && a[j-1] > a[j]; j-- {
+			a[j-1], a[j] = a[j], a[j-1]
+		}
+	}
+}
+
 func vErrCode(err error) int {
 	switch {
 	case errors.Is(err, ErrInvalidSourceLength):
@@ -1317,6 +1325,42 @@ func (e *vOvpn) codecs() {
 					e.fromCase(ty, headless, hb, src)
 				}
 			}
+		}
+	}
+	// the embedded length field (2-byte trailer of the wrapped key) swept around its correct value, around the
+	// wrapped-key size bounds and at the extremes, for wrapped-key lengths around both bounds and in between:
+	// self-inconsistent length fields are where a parser that trusts the field truncates or over-reads
+	wkLens := []int{288, 289, 290, 291, 292, 293, 294, 300, 511, 512, 700, 1021, 1022, 1023, 1024, 1025, 1026}
+	if vThorough() {
+		for n := 295; n < 1021; n += 37 {
+			wkLens = append(wkLens, n)
+		}
+	}
+	for _, wl := range wkLens {
+		trailers := map[int]bool{0: true, 1: true, 2: true, 34: true, 289: true, 290: true, 291: true, 1023: true, 1024: true, 1025: true, 65535: true,
+			wl + 53: true, wl + 54: true, wl + 256: true, (wl + 290) / 2: true}
+		for d := -4; d <= 4; d++ {
+			if wl+d >= 0 {
+				trailers[wl+d] = true
+			}
+		}
+		for tr := range trailers {
+			if tr < 0 || tr > 65535 {
+				delete(trailers, tr)
+			}
+		}
+		trs := make([]int, 0, len(trailers))
+		for tr := range trailers {
+			trs = append(trs, tr)
+		}
+		sortInts(trs)
+		for _, tr := range trs {
+			wk := r.Bytes(wl)
+			binary.BigEndian.PutUint16(wk[wl-2:], uint16(tr))
+			e.fromCase(4, false, 0, wk)
+			body := append(r.Bytes(53), wk...)
+			e.fromCase(5, true, 0x50, body)
+			e.fromCase(5, false, 0x50, append([]byte{0x50}, body...))
 		}
 	}
 	// ToBytes on generated field values (well-formed and out-of-range), and the second inverse law
